@@ -38,7 +38,14 @@ package chsql
 //     LITERAL, which is parsed as the other side's type (Date, DateTime,
 //     numbers) as ClickHouse does. FixedString vs String compares zero padded.
 //   - Types of empty relations come from a "sample row" (see eval.go), so type
-//     errors and unsupported functions are reported even on empty tables.
+//     errors and unsupported functions are reported even on empty tables. While
+//     the sample row is evaluated, and/or/if/multiIf also check the operands and
+//     branches that short circuit evaluation skips (static errors only).
+//   - Nullable-ness is decided syntactically (block.staticNullable): NULL,
+//     *OrNull functions, nullIf, toNullable, CAST to Nullable, Nullable columns
+//     (also of subqueries / CTEs), and functions / aggregates of such arguments.
+//     An aggregate of a Nullable argument over zero (admitted) rows is NULL,
+//     except count, groupArray, groupUniqArray, uniqExact.
 //
 // Functions
 //   - match/extract*/replaceRegexp*/LIKE use RE2 syntax with dot_nl ('.'
